@@ -188,6 +188,10 @@ def front_por(n1d, who, coord, dtype, wrap, sort=False):
     nthread, nparg = who
     pos = probes(n1d, 4, coord, dtype, 0.0)
     pos = pos[:: max(1, len(pos) // 90)]
+    # input order unrelated to the stripe order (the probe abscissae come sorted)
+    n = len(pos)
+    k = next(q for q in (37, 41, 43, 47, 53, 59) if n % q)
+    pos = pos[(np.arange(n) * k) % n] if n > 1 else pos
     w = (1 + (np.arange(len(pos)) % 11) / 16).astype(dtype)
     if wrap:
         pos = pos.copy()
